@@ -39,10 +39,34 @@ type hDecl struct {
 	LongH bool    `json:"longhelp"`
 }
 
-// how each built-in type shows its declared default in the help (empty = nothing shown)
+// how each type shows its declared default in the help (empty = nothing shown); 0-6 are the built-in types,
+// 7-10 custom flag.Value types: 7 a bool-like switch that is off (String() "false", no IsDefault: shown),
+// 8 a counter (IsBoolFlag, String() "0"/"3": shown), 9 a type whose IsDefault() says true (hidden) / false (shown),
+// 10 a plain custom value (String() "1h0m0s" / "2h0m0s": shown)
 var hDefaults = [][2]string{
 	{"", "true"}, {"", `"dflt"`}, {"0", "7"}, {"0", "1.5"}, {"", `["d1", "d2"]`}, {"", "[7, 8]"}, {"", "[1.5, 2.5]"},
+	{"false", "true"}, {"0", "3"}, {"", "custom-set"}, {"1h0m0s", "2h0m0s"},
 }
+
+type hSwitch struct{ s string }
+
+func (v *hSwitch) Set(x string) error { v.s = x; return nil }
+func (v *hSwitch) String() string     { return v.s }
+func (v *hSwitch) IsBoolFlag() bool   { return true }
+
+type hPlain struct{ s string }
+
+func (v *hPlain) Set(x string) error { v.s = x; return nil }
+func (v *hPlain) String() string     { return v.s }
+
+type hDefaulted struct {
+	s   string
+	def bool
+}
+
+func (v *hDefaulted) Set(x string) error { v.s = x; v.def = false; return nil }
+func (v *hDefaulted) String() string     { return v.s }
+func (v *hDefaulted) IsDefault() bool    { return v.def }
 
 func hNorm(s string) []string {
 	var out []string
@@ -202,6 +226,22 @@ func hDeclare(cmd *cli.Cmd, it hItem, asOpt bool) {
 		} else {
 			cmd.Ints(cli.IntsArg{Name: n, EnvVar: e, Desc: d, HideValue: h, Value: v})
 		}
+	case 7, 8, 9, 10:
+		text := hDefaults[it.Typ][map[bool]int{false: 0, true: 1}[it.NZ]]
+		var val flag.Value
+		switch it.Typ {
+		case 7, 8:
+			val = &hSwitch{s: text}
+		case 9:
+			val = &hDefaulted{s: map[bool]string{false: "custom-default", true: "custom-set"}[it.NZ], def: !it.NZ}
+		default:
+			val = &hPlain{s: text}
+		}
+		if asOpt {
+			cmd.Var(cli.VarOpt{Name: n, EnvVar: "", Desc: d, HideValue: h, Value: val})
+		} else {
+			cmd.Var(cli.VarArg{Name: n, EnvVar: "", Desc: d, HideValue: h, Value: val})
+		}
 	case 6:
 		var v []float64
 		if it.NZ {
@@ -318,14 +358,21 @@ func helpAfterBinding(c *Ctx, d *hDecl) {
 		if len(n) == 1 {
 			dash = "-"
 		}
-		if o.Typ == 0 {
+		switch {
+		case o.Typ == 0 || o.Typ == 7 || o.Typ == 8:
 			argv = append(argv, dash+n)
-		} else {
+		case o.Typ >= len(vtypes):
+			argv = append(argv, dash+n+"=given")
+		default:
 			argv = append(argv, dash+n+"="+vtypes[o.Typ].cmd[0])
 		}
 	}
 	for _, a := range d.Args {
-		argv = append(argv, vtypes[a.Typ].cmd[0])
+		if a.Typ >= len(vtypes) {
+			argv = append(argv, "given")
+		} else {
+			argv = append(argv, vtypes[a.Typ].cmd[0])
+		}
 	}
 	o1 := runIsolated(func() error { return app.Run(argv) })
 	if !(o1.Returned && o1.Err == nil) {
@@ -369,7 +416,10 @@ func runHelpText(c *Ctx) {
 	// (1) every single-item declaration over the full variant product
 	for _, names := range optNames {
 		for _, env := range envs {
-			for typ := range vtypes {
+			for typ := range hDefaults {
+				if typ >= len(vtypes) && env != "" {
+					continue // custom types: no environment here
+				}
 				for _, nz := range []bool{false, true} {
 					for _, hide := range []bool{false, true} {
 						for _, desc := range descs {
@@ -383,7 +433,10 @@ func runHelpText(c *Ctx) {
 		}
 	}
 	for _, env := range envs {
-		for typ := range vtypes {
+		for typ := range hDefaults {
+			if typ >= len(vtypes) && env != "" {
+				continue
+			}
 			for _, nz := range []bool{false, true} {
 				for _, hide := range []bool{false, true} {
 					for _, desc := range descs {
@@ -472,7 +525,7 @@ func runHelpText(c *Ctx) {
 			}
 		}
 	}
-	c.Note("single items", "options: 6 name lists x 3 env lists x 7 types x {zero, non-zero default} x HideValue x 3 descriptions (empty, one line, three lines); arguments alike; sub-commands: 1-3 aliases x Hidden x description x LongDesc x application LongDesc x spec given/implicit")
+	c.Note("single items", "options: 6 name lists x 3 env lists x 7 built-in types and 4 custom flag.Value types (bool-like switch, counter, IsDefault-implementing, plain) x {zero, non-zero default} x HideValue x 3 descriptions (empty, one line, three lines); arguments alike; sub-commands: 1-3 aliases x Hidden x description x LongDesc x application LongDesc x spec given/implicit")
 	c.Note("sets", fmt.Sprintf("%d declaration sets of <= 2 arguments + <= 2 options + <= 2 sub-commands over 6 variants per item; every set at depth 0 (the application) and depth 1 (a sub-command), short help (rejection path) and long help (--help)", nsets))
 }
 
@@ -549,7 +602,9 @@ func hEnvValue(d *hDecl) string {
 	for _, l := range [][]hItem{d.Args, d.Opts} {
 		for _, it := range l {
 			if strings.Contains(it.Env, "VQ_H1") {
-				return vtypes[it.Typ].valid
+				if it.Typ < len(vtypes) {
+					return vtypes[it.Typ].valid
+				}
 			}
 		}
 	}
